@@ -119,6 +119,8 @@ def gen_instance(rng, allow_ext=True):
         iopts['show_progress'] = False      # what the inner solve prints would be attributed to the outer call
         inst['nested'] = {'inst': inner, 'at': sorted(rng.sample(range(2, 14), rng.randint(1, 3))), 'opts': iopts}
     inst['solver'] = solver
+    if kind in ('conelp', 'coneqp', 'cpl', 'cp') and not (inst['dims']['q'] or inst['dims']['s']) and rng.random() < 0.3:
+        inst['dims_none'] = True
     # KKT path
     if solver is None and kind not in ('gp', 'op'):
         dims = inst['dims']
